@@ -25,6 +25,32 @@ ASSUMPTIONS = {
 }
 
 
+DTYPE_TWIN_P = 0.2
+INT_TWIN_PROPS = {"C01", "C02", "C09", "C10", "C12", "C14", "C18", "C19"}
+
+
+def _int_twin(c, kwargs):
+    """the same call with every float array of a parameter declared real[...] replaced by its rounding, as int64"""
+    import numpy as np
+    # only where the arrays are data a user hands in (images, grids, coordinates: C01/C02/C09/C10/C12/C14/C18/C19), never
+    # for intermediates that are float by construction (Cholesky factors, curvature matrices) nor for in-place output buffers
+    if not (set(c.props) & INT_TWIN_PROPS) or getattr(c, "no_int_twin", False):
+        return None
+    tw, changed = {}, False
+    for k, v in kwargs.items():
+        ty = str((c.types or {}).get(k, ""))
+        if k in (c.modifies or []):
+            tw[k] = v.copy() if isinstance(v, np.ndarray) else v
+            continue
+        if isinstance(v, np.ndarray) and v.dtype.kind == "f" and ty.startswith("real[") and v.size and np.all(np.isfinite(v)) \
+                and float(np.abs(v).max()) < 1e15:
+            tw[k] = np.rint(v).astype(np.int64)
+            changed = True
+        else:
+            tw[k] = v.copy() if isinstance(v, np.ndarray) else v
+    return tw if changed else None
+
+
 HISTORY = 16      # preceding inputs of the same check kept with a failure (history-dependent violations)
 
 
@@ -80,6 +106,19 @@ def run_contract_search(key, tier, seed):
                                     "observed": o.observed, "history": list(hist)})
             if len(out["failures"]) >= 5:
                 break
+        elif rng.random() < DTYPE_TWIN_P:
+            # integer-dtype twin: a contract over the reals holds in particular for integer-valued input, whatever its dtype
+            # (an accumulator or output buffer that inherits the input dtype truncates silently).  Only a false clause counts;
+            # a function that refuses integer arrays with an exception is outside its own domain, not wrong.
+            tw = _int_twin(c, kwargs)
+            if tw is not None:
+                o2 = rtc.run_contract(c, tw)
+                out["int_twins"] = out.get("int_twins", 0) + (o2.status != "pre-false")
+                if o2.status == "fail" and (o2.detail == "clause is false" or str(o2.clause).startswith(("frame:", "fresh:"))):
+                    out["failures"].append({"inputs": rtc.to_jsonable(tw), "clause": o2.clause, "detail": "integer-dtype input: " + str(o2.detail),
+                                            "observed": o2.observed, "history": []})
+                    if len(out["failures"]) >= 5:
+                        break
         hist.append(rtc.to_jsonable(kwargs))
         if time.time() - t0 > limit_s:
             out["truncated"] = True
